@@ -13,7 +13,12 @@ RESL = ["thread", "thread", "async-thread", "main-thread"]
 
 
 # ------------------------------------------------------------------------------ program generation
-PYC = {"i1": 1, "bT": True, "f1": 1.0, "i0": 0, "bF": False, "f0": 0.0}
+def _a_callable():
+    """a callable used as a VALUE (a truthy activation flag): never meant to be called by the library"""
+    return None
+
+
+PYC = {"i1": 1, "bT": True, "f1": 1.0, "i0": 0, "bF": False, "f0": 0.0, "fn": _a_callable}
 
 
 def dk(key):
@@ -64,7 +69,10 @@ def gen_flag(rng, nvars, vinfo, nparams):
     if r < 0.38:
         # a string as activation value: Python's truth value (non-empty = truthy), whatever it spells
         from .terms import STRS
-        return ["strc", random.Random(rng.getrandbits(30)).choice(STRS)]
+        r3 = random.Random(rng.getrandbits(30))
+        if r3.random() < 0.2:
+            return ["pyc", "fn"]  # a function object as activation value: truthy, and not to be called
+        return ["strc", r3.choice(STRS)]
     return gen_expr(rng, nvars, vinfo, nparams, allow_const=False) if (nvars or nparams) else ["bool", rng.random() < 0.5]
 
 
